@@ -62,7 +62,9 @@ type SignalCase struct {
 	RegMode int   `json:"reg_mode,omitempty"`
 	// Outcomes per service: 0 nil, 1 error, 2 panic, 3 waits until the
 	// shutdown context is done and returns its error (overruns the timeout),
-	// 4 waits until the context is done and returns nil.
+	// 4 waits until the context is done and returns nil, 5 panics with a
+	// runtime.Error (nil map write), 6 panics with an error value, 7 panic(nil),
+	// 8 panics with a runtime.Error (index out of range).
 	Outcomes []int `json:"outcomes"`
 	// CancelledParent: Handle is called with an already cancelled context.
 	CancelledParent bool  `json:"cancelled_parent,omitempty"`
@@ -111,6 +113,16 @@ func (s *svc) Shutdown(ctx context.Context) error {
 	case 4:
 		<-ctx.Done()
 		return nil
+	case 5:
+		var m map[string]int
+		m["x"] = s.id // a genuine runtime fault
+	case 6:
+		panic(fmt.Errorf("service %d panicked with an error value", s.id))
+	case 7:
+		panic(nil)
+	case 8:
+		var a []int
+		_ = a[s.id+1]
 	}
 	return nil
 }
@@ -282,7 +294,10 @@ func checkSignal(c SignalCase) error {
 			nonNil++
 		}
 	}
-	if slices.Contains(c.Outcomes, 2) {
+	if slices.Contains(c.Outcomes, 5) || slices.Contains(c.Outcomes, 7) || slices.Contains(c.Outcomes, 8) {
+		vp.Class("signal:with-a-runtime-error-panic")
+	}
+	if slices.Contains(c.Outcomes, 2) || slices.Contains(c.Outcomes, 5) || slices.Contains(c.Outcomes, 6) || slices.Contains(c.Outcomes, 7) || slices.Contains(c.Outcomes, 8) {
 		vp.Class("signal:with-panicking-service")
 	}
 	if slices.Contains(c.Outcomes, 3) || slices.Contains(c.Outcomes, 4) || c.CancelledParent {
@@ -308,7 +323,7 @@ var signalProp = vp.Register(vp.Prop[SignalCase]{
 		return SignalCase{
 			Groups:          rapid.SliceOfN(rapid.IntRange(1, 4), 0, 4).Draw(t, "groups"),
 			RegMode:         rapid.IntRange(0, 2).Draw(t, "regmode"),
-			Outcomes:        rapid.SliceOfN(rapid.SampledFrom([]int{0, 0, 0, 1, 1, 2, 2, 3, 4}), 0, 6).Draw(t, "outcomes"),
+			Outcomes:        rapid.SliceOfN(rapid.SampledFrom([]int{0, 0, 0, 0, 1, 1, 2, 2, 3, 4, 5, 6, 7, 8}), 0, 6).Draw(t, "outcomes"),
 			CancelledParent: rapid.IntRange(0, 5).Draw(t, "cancelled") == 0,
 			Pre:             rapid.SliceOfN(rapid.SampledFrom([]int{1, 10, 12, 13, 17, 28}), 0, 6).Draw(t, "pre"),
 			Shut:            rapid.SampledFrom([]int{2, 3, 15}).Draw(t, "shut"),
